@@ -244,7 +244,8 @@ def provider_values():
     return {
         "VStr": [lambda: "ab", lambda: ""],
         "VBytes": [lambda: b"ab"],
-        "VNum": [lambda: 3, lambda: 2.5],
+        "VNum": [lambda: 3, lambda: 2.5, lambda: 10**400, lambda: -(2**1024), lambda: complex(1, 2), lambda: complex("nan"),
+                 lambda: float("nan"), lambda: float("inf"), lambda: -0.0, lambda: 5e-324],
         "VSubStr": [lambda: G.make_op("opstr", "ab", "plain"), lambda: G.make_op("opstr", "A1", "raise"),
                     lambda: G.make_op("opstrsw", "ab", "raise"), lambda: G.LoggingStr("ab")],
         "VSubBytes": [lambda: G.make_op("opbytes", "ab", "plain"), lambda: G.make_op("opbytes", "b", "raise")],
